@@ -234,21 +234,59 @@ Proof.
   - destruct (eh_fields (set_hasbody (prep0 r))) as (F1 & _). rewrite F1. cbn [set_hasbody out]. rewrite A, Ho. reflexivity.
 Qed.
 
-Lemma op_finish_via r : op_finish r = op_finish (encode_head (prep0 r)).
+(* the parts of Finish and Flush after `encode_head (prep0 r)` (kept as separate definitions so that the proofs
+   below rewrite inside small terms: Qed on the unfolded bodies takes minutes) *)
+Definition finish_core (r : resp) : resp :=
+  if negb (chunked r) then
+    match buffer r with
+    | Some h =>
+        match bodybuf r with
+        | Some ((_ :: _) as b) =>
+            if MAXP <? len h + len b
+            then set_bufs (upd_out (upd_out r h) b) None None
+            else set_bufs (upd_out r (h ++ b)) None None
+        | _ => set_bufs (upd_out r h) None (bodybuf r)
+        end
+    | None =>
+        match bodybuf r with
+        | Some ((_ :: _) as b) => set_bufs (upd_out r b) None None
+        | _ => r
+        end
+    end
+  else
+    let pd := match buffer r with Some b => b | None => [] end in
+    let tr := concat (map (fun kv =>
+                 let cur := match find (fun kv' => beq (fst kv') (fst kv)) (h_trailers r) with
+                            | Some (_, v) => v | None => [] end in
+                 let v := match cur with [] => snd kv | _ => cur end in
+                 fst kv ++ [58; 32] ++ v ++ CRLF) (captured r)) in
+    set_bufs (upd_out r (pd ++ [48] ++ CRLF ++ tr ++ CRLF)) None (bodybuf r).
+
+Definition flush_core (r : resp) : resp :=
+  let r1 := match buffer r with
+            | Some ((_ :: _) as b) => set_bufs (upd_out r b) (Some []) (bodybuf r)
+            | _ => r end in
+  match bodybuf r1 with
+  | Some ((_ :: _) as b) => set_bufs (upd_out r1 b) (buffer r1) (Some [])
+  | _ => r1 end.
+
+Lemma op_finish_eq r : op_finish r = finish_core (encode_head (prep0 r)).
+Proof. reflexivity. Qed.
+Lemma op_flush_eq r : op_flush r = flush_core (encode_head (prep0 r)).
+Proof. reflexivity. Qed.
+
+Lemma eh_prep_fix r : encode_head (prep0 (encode_head (prep0 r))) = encode_head (prep0 r).
 Proof.
-  unfold op_finish. fold (prep0 r). fold (prep0 (encode_head (prep0 r))).
   assert (Hs : settled (encode_head (prep0 r))).
   { destruct (prep0_is_settled r) as [S1 S2]. destruct (eh_fields (prep0 r)) as (_ & _ & _ & _ & F5 & F6 & _). split; congruence. }
-  rewrite (prep0_settled _ Hs). destruct (eh_fields (prep0 r)) as (_ & _ & F3 & _). now rewrite (eh_encoded _ F3).
+  rewrite (prep0_settled _ Hs). destruct (eh_fields (prep0 r)) as (_ & _ & F3 & _). apply (eh_encoded _ F3).
 Qed.
 
+Lemma op_finish_via r : op_finish r = op_finish (encode_head (prep0 r)).
+Proof. rewrite !op_finish_eq. now rewrite eh_prep_fix. Qed.
+
 Lemma op_flush_via r : op_flush r = op_flush (encode_head (prep0 r)).
-Proof.
-  unfold op_flush. fold (prep0 r). fold (prep0 (encode_head (prep0 r))).
-  assert (Hs : settled (encode_head (prep0 r))).
-  { destruct (prep0_is_settled r) as [S1 S2]. destruct (eh_fields (prep0 r)) as (_ & _ & _ & _ & F5 & F6 & _). split; congruence. }
-  rewrite (prep0_settled _ Hs). destruct (eh_fields (prep0 r)) as (_ & _ & F3 & _). now rewrite (eh_encoded _ F3).
-Qed.
+Proof. rewrite !op_flush_eq. now rewrite eh_prep_fix. Qed.
 
 Lemma op_write_first_ch r d : NotStarted r -> chunked (prep0 r) = true -> d <> [] ->
   let r' := fst (op_write r d) in
@@ -268,11 +306,14 @@ Qed.
 Lemma prep0_set_trailer_chunked r k v :
   chunked (prep0 (set_hdrs r (h_cl r) (h_custom r) (map (fun kv => if beq (fst kv) k then (k, v) else kv) (h_trailers r)))) = chunked (prep0 r).
 Proof.
-  unfold prep0, check_chunked, write_header, set_hdrs.
-  destruct ((code r =? 0) && negb (200 =? 0)); cbn [chunkChecked te_hdr rq h_cl code h_trailers chunked];
-  destruct (chunkChecked r); cbn [chunked]; try reflexivity;
-  destruct (te_hdr r); try reflexivity;
-  destruct (h_trailers r) as [|x t]; cbn [map]; reflexivity.
+  set (f := fun kv : list N * list N => if beq (fst kv) k then (k, v) else kv).
+  assert (Hnil : match map f (h_trailers r) with [] => true | _ => false end = match h_trailers r with [] => true | _ => false end)
+    by (destruct (h_trailers r); reflexivity).
+  unfold prep0, write_header, set_hdrs. cbn [code].
+  destruct ((code r =? 0) && negb (200 =? 0)); unfold check_chunked;
+    cbn [chunkChecked te_hdr rq h_cl code h_trailers chunked minor11];
+    destruct (chunkChecked r); cbn [chunked]; try reflexivity;
+    rewrite Hnil; reflexivity.
 Qed.
 
 Lemma set_trailer_notstarted r k v : NotStarted r ->
@@ -293,7 +334,7 @@ Proof.
   - cbn [forallb] in Hb. apply andb_true_iff in Hb as [Ho Hb]. cbn [run_prog].
     destruct o; try discriminate; cbn [run_op].
     + (* HSetTrailer: still not started *)
-      cbn [chunks]. apply IH; auto. now apply set_trailer_notstarted. now rewrite prep0_set_trailer_chunked.
+      cbn [chunks]. apply IH; [apply set_trailer_notstarted; exact Hn | rewrite prep0_set_trailer_chunked; exact Hc | exact Hb].
     + (* HWrite *)
       destruct d as [|c d].
       * cbn [op_write chunks]. apply IH; auto.
@@ -612,9 +653,9 @@ Proof. apply prep0_settled, prep0_is_settled. Qed.
 Lemma op_write_prep r d : d <> [] -> op_write (prep0 r) d = op_write r d.
 Proof. intros Hd. unfold op_write. destruct d; [congruence|]. fold (prep0 (prep0 r)). fold (prep0 r). now rewrite prep0_idem. Qed.
 Lemma op_flush_prep r : op_flush (prep0 r) = op_flush r.
-Proof. unfold op_flush. fold (prep0 (prep0 r)). fold (prep0 r). now rewrite prep0_idem. Qed.
+Proof. rewrite !op_flush_eq. now rewrite prep0_idem. Qed.
 Lemma op_finish_prep r : op_finish (prep0 r) = op_finish r.
-Proof. unfold op_finish. fold (prep0 (prep0 r)). fold (prep0 r). now rewrite prep0_idem. Qed.
+Proof. rewrite !op_finish_eq. now rewrite prep0_idem. Qed.
 
 Lemma finish_run_prep body : forall r acc, forallb is_wf_op body = true ->
   op_finish (fst (run_prog (prep0 r) body acc)) = op_finish (fst (run_prog r body acc)).
